@@ -198,10 +198,17 @@ def parse(xs, text):
     if xs == 'time':
         m = _re_time.match(text)
         us = _frac_us(m.group('f'))
-        if us is None or m.group('tz'):
+        if us is None:
             return NotRepresentable
         H = int(m.group('H'))
-        return datetime.time(0 if H == 24 else H, int(m.group('M')), int(m.group('S')), us)
+        tz = m.group('tz')
+        tzinfo = None
+        if tz == 'Z':
+            tzinfo = datetime.timezone.utc
+        elif tz:
+            mins = int(tz[1:3]) * 60 + int(tz[4:6])
+            tzinfo = datetime.timezone(datetime.timedelta(minutes=-mins if tz[0] == '-' else mins))
+        return datetime.time(0 if H == 24 else H, int(m.group('M')), int(m.group('S')), us, tzinfo=tzinfo)
     if xs == 'duration':
         m = _re_dur.match(text)
         if int(m.group('Y') or 0) or int(m.group('Mo') or 0):
@@ -272,7 +279,7 @@ def equal(xs, a, b):
         if xs == 'date':
             return type(b) is datetime.date and a == b
         if xs == 'time':
-            return isinstance(b, datetime.time) and a.replace(tzinfo=None) == b.replace(tzinfo=None)
+            return isinstance(b, datetime.time) and a.replace(tzinfo=None) == b.replace(tzinfo=None) and a.utcoffset() == b.utcoffset()
         if xs == 'duration':
             return isinstance(b, datetime.timedelta) and a == b
         if xs in ('base64Binary', 'hexBinary', 'bytes'):
@@ -468,7 +475,9 @@ def gen_datetime_literals(rng, n):
 
 def gen_time_values(rng, n):
     out = [datetime.time(0, 0, 0), datetime.time(23, 59, 59, 999999), datetime.time(12, 0, 0, 1),
-           datetime.time(1, 2, 3, 100000), datetime.time(1, 2, 3, 120)]
+           datetime.time(1, 2, 3, 100000), datetime.time(1, 2, 3, 120),
+           datetime.time(1, 2, 3, 4, tzinfo=datetime.timezone(datetime.timedelta(hours=3))),
+           datetime.time(12, 0, 0, tzinfo=datetime.timezone.utc)]
     for _ in range(n):
         out.append(datetime.time(rng.randint(0, 23), rng.randint(0, 59), rng.randint(0, 59),
                                  rng.choice((0, 1, 10, 500000, 999999, rng.randint(0, 999999)))))
@@ -478,9 +487,16 @@ def gen_time_values(rng, n):
 def gen_time_literals(rng, n):
     out = []
     for v in gen_time_values(rng, n):
+        if v.tzinfo is not None:
+            continue          # (zoned literals are listed below)
         for fr in frac_forms(v.microsecond, rng):
             out.append(('%02d:%02d:%02d%s' % (v.hour, v.minute, v.second, fr), v))
     out.append(('24:00:00', datetime.time(0, 0, 0)))
+    # xs:time may carry a time zone
+    for lit, off in (('12:00:00Z', 0), ('01:02:03.5+05:30', 330), ('23:59:59-00:30', -30), ('00:00:00+14:00', 840)):
+        h, m, sec = lit[:8].split(':')
+        us = 500000 if '.5' in lit else 0
+        out.append((lit, datetime.time(int(h), int(m), int(sec), us, tzinfo=datetime.timezone(datetime.timedelta(minutes=off)))))
     return out
 
 
@@ -683,6 +699,9 @@ def print_xs(xs, v):
         s = '%02d:%02d:%02d' % (v.hour, v.minute, v.second)
         if v.microsecond:
             s += ('.%06d' % v.microsecond).rstrip('0')
+        if v.tzinfo is not None:
+            off = int(v.utcoffset().total_seconds() // 60)
+            s += 'Z' if off == 0 else fmt_offset(off)
         return s
     if xs == 'duration':
         neg = v < datetime.timedelta(0)
